@@ -9,10 +9,10 @@ def geometry_generated_model():
     from core import TL_ROOT, COQ_DIR
     import py2coq_num
     res = {'scope': 'util/geometry.py: distance_to_segment, cartesienne, projection_droite, proj_segment, operation by operation over Num T (so for the reals of the theorems and for the binary64 instance), '
-                    'and proj_polyligne (its loop: a body function on the loop-carried variables applied len(Xp) - 1 times, its float literals compared with the model\'s); '
+                    'and proj_polyligne (its loop: a body function on the loop-carried variables applied len(Xp) - 1 times, its float literals compared with the model\'s) and triangle_area (Visvalingam\'s effective area); '
                     'the callers in simplification.py / mapping.py / the Track methods are tied by correspondence only',
            'proof': 'coq/GenProofs/GeomGen_eq.v: gen_distance_to_segment_eq, gen_proj_segment_eq (by conversion, for every Num T); gen_proj_polyligne_eq (induction over the vertices, for every Num T, '
-                    'under the hypothesis that every leg distance is below the sentinel 1e309), gen_proj_polyligne_literals; restated: gen_distance_to_segment_nearest, gen_proj_segment_sound, gen_proj_polyligne_nearest'}
+                    'under the hypothesis that every leg distance is below the sentinel 1e309), gen_proj_polyligne_literals; gen_triangle_area_eq (the generated expression at the rationals is the model\'s area3, by conversion), gen_triangle_area_real, gen_triangle_area_literals; restated: gen_distance_to_segment_nearest, gen_proj_segment_sound, gen_proj_polyligne_nearest'}
     try:
         text = py2coq_num.translate_geometry(os.path.join(TL_ROOT, 'tracklib', 'util', 'geometry.py'))
     except (py2coq_num.Untranslatable, SyntaxError) as e:
